@@ -41,6 +41,7 @@ _CONTAINER_UP = {'list': ['seq', 'Sequence'], 'List': ['seq', 'TSequence'], 'Mut
                  'TCollection': ['quasi', 'TIterable']}
 _MAP_UP = {'dict': 'MutableMapping', 'Dict': 'TMapping', 'MutableMapping': 'Mapping', 'OrderedDict': 'dict',
            'defaultdict': 'dict', 'DefaultDict': 'Dict', 'ChainMap': 'MutableMapping'}
+_ROW_UP = {'VRow[int]': ['cls', 'int'], 'VRow[bytes]': ['cls', 'bytes']}
 _CLS_UP = {'VDerived': 'VBase', 'bool': 'int'}
 # callable hints: parameters narrow, returns widen (statically; at run time every callable conforms to each of them)
 _CALL_UP = {'Callable[[VBase],VDerived]': ['Callable[[VDerived],VBase]', 'Callable[...,VBase]', 'Callable[...,object]', 'Callable'],
@@ -84,6 +85,9 @@ def widen(draw, node):
     if k == 'shallow' and node[1] == 'ItemsView[str,int]':
         # one-parameter ABCs ItemsView subclasses; its elements are (key, value) pairs, so only the last one is a widening
         opts += ['itemsview-up', 'itemsview-up', 'itemsview-up']
+    if k == 'shallow' and node[1] in _ROW_UP:
+        # user generic over a fixed-length tuple -> the tuples its instances are
+        opts += ['row-tupf', 'row-tupv', 'row-tupv-first']
     if k == 'ann':
         opts += ['unann', 'unann']
     if k == 'nt':
@@ -140,6 +144,14 @@ def widen(draw, node):
         ms = list(node[1])
         ms[i] = draw(widen(ms[i]))
         return ['tupf', ms, node[2]]
+    if m in ('row-tupf', 'row-tupv', 'row-tupv-first'):
+        first, second = _ROW_UP[node[1]], ['mylist', ['cls', 'str']]
+        sty = draw(st.sampled_from(['t', 'T']))
+        if m == 'row-tupf':
+            return ['tupf', [first, second], sty]
+        # row-tupv-first is NOT a widening (the second item is no int / bytes) but a probe: a comparison that walks the children of
+        # both sides must not run off the end of the shorter one
+        return ['tupv', ['union', [first, second], 'U'] if m == 'row-tupv' else first, sty]
     if m == 'variadic':
         ms = node[1]
         child = ms[0] if all(x == ms[0] for x in ms) else ['union', list(ms), 'U']
